@@ -6,6 +6,7 @@ import Driver.Digest
 import Driver.Disabled
 import Driver.Rounds
 import Driver.Des
+import Driver.Context
 /-
 Line protocol driver: `<suite> <op> <args…>` per input line, one result line out.
 Compiled (`lean_exe modeldrv`); nothing imported here touches Mathlib.
@@ -20,6 +21,7 @@ def dispatch (line : String) : String :=
   | "dis" :: rest => Driver.Disabled.handle rest
   | "rounds" :: rest => Driver.Rounds.handle rest
   | "des" :: rest => Driver.Des.handle rest
+  | "ctx" :: rest => Driver.Context.handle rest
   | _ => Driver.bad
 
 partial def loop (h : IO.FS.Stream) (out : IO.FS.Stream) : IO Unit := do
